@@ -272,6 +272,7 @@ def c10(ctx):
     RT.rule_dispatch(ctx)
     RT.rule_post_load(ctx)
     RT.rule_reload_valid(ctx)
+    RT.rule_args_private(ctx)
     RT.rule_observers(ctx)
     RT.rule_state_owner(ctx)
     RA.rule_ceil(ctx)
@@ -404,6 +405,10 @@ def c17(ctx):
     RL.rule_alpha(ctx)
     RL.rule_tabidx(ctx)
     RL.rule_tables(ctx)
+    # query() is the kernel's value of the CURRENT registers on every path (no cached answer)
+    RT.rule_wrapper_once(ctx, hll, ("query",))
+    RT.rule_state_owner(ctx, hll)
+    ctx.floor("wrapper-once", 3)
     ctx.floor("qtree", 6)
     ctx.floor("forms", 7)
     ctx.floor("alpha", 1)
